@@ -655,6 +655,11 @@ def _getvardef(pymodule, pyname):
     )
     if assignment.levels:
         raise exceptions.RefactoringError("Cannot inline tuple assignments.")
+    if "=" not in definition_with_assignment:
+        # bound by a for loop, a with statement ...
+        raise exceptions.RefactoringError(
+            "Only variables bound by an assignment can be inlined."
+        )
     definition = definition_with_assignment[
         definition_with_assignment.index("=") + 1 :
     ].strip()
